@@ -61,7 +61,7 @@ def rand_ckeys(rng, n_cands):
     return ["z", "a", ""][:n_cands] if n_cands <= 3 else ["c%d" % i for i in range(n_cands)], "strings"
 
 
-def make_prov(I, exprs_json, n_units, n_cands=2, keys=None, lazy=False, ckeys=None):
+def make_prov(I, exprs_json, n_units, n_cands=2, keys=None, lazy=False, ckeys=None, via_default=False):
     """real Provenance from JSON expression list (library operators are NOT used here: flat leaves only).
     keys: unit key per position (default = the positions); lazy: units created on first mention instead of up front."""
     import gen
@@ -78,6 +78,17 @@ def make_prov(I, exprs_json, n_units, n_cands=2, keys=None, lazy=False, ckeys=No
         raw = P.Units(units=list(keys), candidates=cands)
     units = UView(raw, keys, ckeys)
     es = [gen.build_expr(P, units, e) for e in exprs_json]
+    if via_default:
+        # the default one-row-per-unit container OBJECT, edited in place (item assignment, insert, delete) until it holds the same formulas
+        prov = P.Provenance(units=raw)
+        for i in range(min(len(es), len(prov))):
+            if exprs_json[i] != {"eq": [i, 1]}:
+                prov[i] = es[i]
+        if len(es) < len(prov):
+            del prov[len(es):]
+        for i in range(len(prov), len(es)):
+            prov.insert(i, es[i])
+        return prov, units, es
     return P.Provenance(es), units, es
 
 
